@@ -1,4 +1,6 @@
 import Nstd.Str.LemmasStep
+import Nstd.Str.LemmasTotal
+import Nstd.Str.LemmasView
 /-!
   Property C06 — String is an independent byte-string value matching a reference model.
 
@@ -140,5 +142,75 @@ theorem cstr_terminated {n : Nat} {regs : Nat → List Nat} {s s' : St} (r : Rea
     obtain ⟨E, t⟩ := eff_cview g.inv V.1 e
     exact ⟨t, E.silent.abs⟩
   · cases e
+
+/-- **No fault** (`_partial`: for the calls listed in `NoFaultOp`): in every reachable state these calls
+    perform only in-range loads, branch only on initialised chars and store only into a block the
+    variable owns exclusively — for every argument, including the variable itself.  What the caller
+    must provide is exactly `NoFaultOp`: existing variables, `attach` with one readable byte behind the
+    range, the copy constructor applied to another object. -/
+theorem no_fault_partial {n : Nat} {regs : Nat → List Nat} {s : St} (r : Reach n regs s) {op : Op}
+    (ok : NoFaultOp s op) : ∃ s', step s op = some s' :=
+  step_total (reach_good r) ok
+
+/- OPEN: no_fault
+   the same for fillFrom, prepend, substr, printf (no further precondition), and for
+   replace(char,char) / toLowerCase / toUpperCase / trim / token / join / replace(String,String) under
+   "the chars of the variables read are specified (no `none` byte)" and, for `tokenS`, `start ≤ length()`;
+   plus the queries (compare, find…, startsWith, toBool, hash) under the same condition. -/
+
+/-! ### query lemmas: the answers are the libc reference functions applied to the values -/
+
+/-- `find(const char*)`: the first occurrence of the needle in the value (NUL-free, specified chars) -/
+theorem find_spec {n : Nat} {regs : Nat → List Nat} {s s' : St} (r : Reach n regs s) {v : Nat}
+    (hv : validVar s v = true) {needle c : List Nat} {res : Option Nat}
+    (e : findS s v needle = some (s', res)) (hc : allSome (absVar s v) = some c) (hz : ∀ x ∈ c, x ≠ 0) :
+    (∀ w, absVar s' w = absVar s w) ∧ FirstMatch c needle res := by
+  obtain ⟨rfl, ab⟩ := findS_eq (reach_good r).inv (valid_facts hv).1 e hc hz
+  exact ⟨ab, strstr_first c needle⟩
+
+/-- `findLast(const char*)` (repaired, D7): the last occurrence; for the empty needle the offset of the terminator -/
+theorem findLast_spec' {n : Nat} {regs : Nat → List Nat} {s s' : St} (r : Reach n regs s) {v : Nat}
+    (hv : validVar s v = true) {needle c : List Nat} {res : Option Nat}
+    (e : findLastS s v needle = some (s', res)) (hc : allSome (absVar s v) = some c) (hz : ∀ x ∈ c, x ≠ 0) :
+    (∀ w, absVar s' w = absVar s w) ∧ LastMatch c needle res ∧ (needle = [] → res = some c.length) := by
+  have g := (reach_good r).inv
+  have V := valid_facts hv
+  obtain ⟨lm, ab⟩ := findLastS_eq g V.1 e hc hz
+  refine ⟨ab, lm, ?_⟩
+  intro hn; subst hn
+  simp only [findLastS, Option.bind_eq_bind, Option.bind_eq_some_iff, Option.pure_def, Option.some.injEq,
+    Prod.mk.injEq] at e
+  obtain ⟨s1, h1, hh, h2, _, rfl⟩ := e
+  obtain ⟨E, t⟩ := eff_cview g V.1 h1
+  have := cstrVar_eq E.inv t (by rw [E.self]; exact hc) hz
+  rw [this] at h2; injection h2 with h2; subst h2
+  exact findLast_empty_needle _
+
+/-- `findOneOf(const char*)`: the first char of the value that is in the set -/
+theorem findOneOf_spec {n : Nat} {regs : Nat → List Nat} {s s' : St} (r : Reach n regs s) {v : Nat}
+    (hv : validVar s v = true) {chars c : List Nat} {res : Option Nat}
+    (e : findOneOf s v chars = some (s', res)) (hc : allSome (absVar s v) = some c) (hz : ∀ x ∈ c, x ≠ 0) :
+    (∀ w, absVar s' w = absVar s w) ∧ FirstOf c chars res := by
+  obtain ⟨rfl, ab⟩ := findOneOf_eq (reach_good r).inv (valid_facts hv).1 e hc hz
+  exact ⟨ab, strpbrk_first c chars⟩
+
+/-- `compare(other)`: zero iff the values are equal, negative iff the first is lexicographically smaller
+    (unsigned chars) — also when both arguments are the same variable or share a block -/
+theorem compare_spec {n : Nat} {regs : Nat → List Nat} {s s' : St} (r : Reach n regs s) {v w : Nat}
+    (hv : validVar s v = true) (hw : validVar s w = true) {res : Int} {a b : List Nat}
+    (e : compareS s v w = some (s', res)) (ha : allSome (absVar s v) = some a) (hb : allSome (absVar s w) = some b)
+    (hza : ∀ x ∈ a, x ≠ 0) (hzb : ∀ x ∈ b, x ≠ 0) :
+    (∀ u, absVar s' u = absVar s u) ∧ (res = 0 ↔ a = b) ∧ (res < 0 ↔ a < b) := by
+  obtain ⟨rfl, ab⟩ := compareS_eq (reach_good r).inv (valid_facts hv).1 (valid_facts hw).1 e ha hb hza hzb
+  exact ⟨ab, strcmp_eq_zero hza hzb, strcmp_neg hza hzb⟩
+
+/-- the range `trim` keeps (as computed by the two scanning loops of the C++ code) is the value
+    without its leading and trailing chars of the set -/
+theorem trim_spec (chars c : List Nat) :
+    (c.drop (c.takeWhile (inSet chars)).length).take
+        (c.length - ((c.drop (c.takeWhile (inSet chars)).length).reverse.takeWhile (inSet chars)).length
+          - (c.takeWhile (inSet chars)).length)
+      = ((c.dropWhile (inSet chars)).reverse.dropWhile (inSet chars)).reverse :=
+  trim_range _ c
 
 end Nstd.Str
